@@ -27,7 +27,7 @@ fn main() {
     run.floor("distinct non-trivial (problem shape, config shape) pairs", run.distinct_nontrivial(), 20);
     run.floor("tour statistics recomputed", run.observed("rule_evaluated", "tour-statistic"), 100);
     run.floor("stop loads recomputed", run.observed("rule_evaluated", "stop-load"), 100);
-    for f in ["scale", "multi-places", "sparse-place-tags", "open-end", "reloads", "coordinates"] {
+    for f in ["scale", "multi-places", "sparse-place-tags", "time-offsets", "open-end", "reloads", "coordinates"] {
         run.floor(&format!("feature '{f}' in workload"), run.observed("features", f), 3);
     }
     run.finish();
